@@ -1,45 +1,81 @@
 """Shared infrastructure of the "generated-code" properties (C13, C08, C01; reusable for C10, C12,
-C11, C09, C14, C02): from construct-grammar schemas to running code cog generated for them.
+C11, C09, C14, C02): from construct-grammar schemas to RUNNING the code cog generated for them.
 
-Pipeline of one batch (all inside the check's scratch directory, nothing under /repo or /tmp):
+Pipeline of one batch (everything lives in the check's scratch directory; nothing is written under
+/repo or /tmp; /repo is only read, through `go build -overlay`):
 
     Src schema (gen/srcgen.py)  --render-->  schema text (JSON Schema | OpenAPI 3.0 | CUE) + pipeline YAML
-        --harness `verifh_gen gen` (overlay-built from core.REPO: codegen.PipelineFromFile, LoadSchemas,
-          ContextForLanguage, Pipeline.Run)-->
+        --harness `verifh_gen gen` (overlay-built from core.REPO; per schema: codegen.PipelineFromFile,
+          Pipeline.LoadSchemas, Pipeline.ContextForLanguage, Pipeline.Run = exactly what `cog generate` does)-->
               * pre-chain and post-chain IR as Gallina terms of coq/Model/IR.v
               * the generated Go package  <module>/<gopkg>/types_gen.go  (+ <module>/cog/ runtime)
-        --emit drivers/go/main.go + dispatch.go, `go build` (offline, one build per batch)--> driver binary
-        --job lines--> per document: decode / strict decode / re-encode / Validate / Equals outcomes
+              * a JSON summary of the post-chain objects (Go identifiers, kinds, field names)
+        --drivers/go/main.go + generated dispatch.go, `go build` offline, ONE build per batch--> driver binary
+        --JSON job lines--> per document: decode / strict decode / re-encode / Validate / Equals outcomes
 
-API (everything a check needs; see checks/c13.py for a complete user):
+===================================================== API =====================================================
+harness(ctx) -> path
+    build (once per run) the overlay harness /verif/harness/verifh_gen (commands: `gen`, `validate`).
 
-  harness(ctx)                          build (once per run) and return the verifh_gen binary path
-  Batch(ctx, name, go_opts=None, package_root="verifgen", output_opts=None)
-      .add(schema, fmt, closed=False, text=None) -> sid
-                                        render `schema` (srcgen dict) in format fmt and register it as package
-                                        schema["pkg"]; `text` overrides the rendering (hand-written schemas)
-      .generate()                       run cog on every registered schema.  Fills .gen[sid] = GenResult with
-                                        .status "OK"|"ERR"|"PANIC"|"FATAL", .stage, .message, .pre_ir, .post_ir
-                                        (Gallina `schemas` terms), .objects (list of dicts pkg/gopkg/name/go/kind/
-                                        union/fields), .files
-      .build_driver(extra_files=None)   write go.mod + driver + dispatch, `go build`; packages that do not
-                                        compile are dropped and recorded in .compile_errors[sid] (text)
-      .run(jobs)                        jobs: list of dict(id, sid, type(IR object name), docs=[json text], ops=[...])
-                                        -> list of result dicts (see drivers/go/main.go), None if the driver died
-      .schema_path(sid), .type_key(sid, objname), .struct_objects(sid), .module_dir
-  ref_validate(ctx, items)              items: list of dict(fmt, path, type, docs=[json text]) -> list of
-                                        verdict strings ("1"=accepted,"0"=rejected per doc) or None when the
-                                        validator could not load the schema.  jsonschema -> python `jsonschema`
-                                        (Draft7, format checking on) via python3-vt; openapi -> kin-openapi;
-                                        cue -> CUE (both through the harness).  jsonschema_go=True additionally
-                                        returns santhosh-tekuri verdicts.
-  build_cli(ctx)                        `go build ./cmd/cli` from core.REPO -> binary (real `cog generate`)
-  cli_generate(ctx, cli, config_path, cwd)
-  ctx_defs(batch, sids)                 Coq `Definition ctx_<sid> : schemas := ...` lines for case files
-  eval_cases(ctx, name, preamble, ctx_defs, cases, defs, shard)   sharded coqc evaluation -> {ident: [case idx]}
+Batch(ctx, name, go_opts=None, package_root="verifgen", output_opts=None)
+    go_opts      : dict of YAML options of the Go jenny (default GO_OPTS_DEFAULT: generate_json_marshaller,
+                   generate_strict_unmarshaller, generate_equal, generate_validate all true); any key of
+                   golang.Config with a yaml tag may be given (e.g. {"any_as_interface": True}).
+    output_opts  : extra keys of the pipeline `output:` section (e.g. {"builders": True}).
+    .add(schema, fmt, closed=False, text=None) -> sid
+                   register a schema as package schema["pkg"] (its own Go package); rendered with
+                   srcgen.render unless `text` is given (hand-written schemas, replays).  For CUE the file is
+                   <in>/<pkg>/<pkg>.cue and must start with `package <pkg>`.
+    .generate()    run cog on every registered schema (parallel harness processes; a schema that kills the
+                   process is isolated).  .gen[sid] = GenResult(status "OK"|"ERR"|"PANIC"|"FATAL", stage
+                   "load"|"parse"|"chain"|"generate"|"write", message, pre_ir, post_ir, files, objects) where
+                   objects = [{pkg, gopkg, name, go, kind, union ("scalars"|"refs"|""), fields}].
+    .build_driver(extra_files=None)
+                   write go.mod (module <package_root>, go 1.21), cmd/driver/main.go (template) and dispatch.go
+                   (a `switch` over "<gopkg>.<GoType>" of every struct object), `go build`.  Packages that do
+                   not compile are dropped and recorded in .compile_errors[sid]; an unused std import (a real
+                   cog defect) is removed from the generated file and recorded in .import_fixups[sid] so that
+                   the package can still be driven.  extra_files: {relative path: content} added to the module
+                   (e.g. a helper package a later check needs).
+    .run(jobs)     jobs: [{"id", "sid", "type" (IR object name), "docs": [json text...], "ops": [...]}] ->
+                   list of result dicts, None where the driver process died.  ops subset of
+                   "std","strict","validate","equals" (default all).  Result format: drivers/go/main.go.
+                   The driver runs with TZ=UTC.
+    .ok_sids(), .struct_objects(sid), .type_key(sid, objname), .schema_path(sid), .module_dir, .schemas
 
-Conventions: JSON documents travel as exact text (srcgen.dumps / srcgen.loads, Decimal numbers); Go type
-keys are "<gopkg>.<GoType>"; every random choice is made by the caller's random.Random.
+Campaign(ctx, name, go_opts=None, closed=False)      the skeleton shared by checks/c13.py, c08.py, c01.py
+    .add_schema(schema, fmt) / .add_schema_text(pkg, fmt, text);  .prepare()  (= generate + build_driver)
+    .add_job(sid, objname, pydocs, meta=None) -> index;  .run();  .live()
+    .evaluate(name, imports, defs, shard=50, select=None) -> {ident: [job indices]}
+                   writes sharded scratch .v files (contexts as `ctx_<sid>`, one `gcase` per job, see
+                   coq/Model/GoSem.v) and evaluates the boolean Coq functions `defs` = [(ident, function)] by
+                   vm_compute; select = {job index: [document indices]} restricts cases to some documents.
+    .job_payload(i)  replayable description {fmt, pkg, schema_text, type, docs, meta};  Campaign.replay_jobs(path)
+
+ref_validate(ctx, items, jsonschema_go=False) -> [verdict string | None]
+    items: [{"fmt", "path", "type", "docs": [json text]}]; one character per document, "1" accepted / "0"
+    rejected; None when the validator could not load the schema.  jsonschema -> python `jsonschema` Draft7
+    with date-time format checking (run with python3-vt); openapi -> kin-openapi VisitJSON (format validation
+    on); cue -> CUE Unify + Validate(Concrete) (both inside the harness, they are cog dependencies).
+
+build_cli(ctx) / cli_generate(ctx, cli, config_path, cwd)    the real `cog generate` CLI built from core.REPO.
+
+Gallina side: PREAMBLE, ctx_defs(batch, sids), eval_cases(...), coq_print(...) (diagnosis), g_list, g_opt,
+obs_term(result_doc) -> `docobs`, gcase_term(sid, pkg, objname, pydocs, result) -> `gcase`,
+GCASE_DEFS (the model-vs-implementation comparisons of coq/Model/GoSem.v: mm_std, mm_strict, mm_validate,
+mm_equals, mm_wt, mm_spec).
+
+How to add a check for another generated-code property: generate schemas with srcgen.SrcGen (restrict
+`features` / pass `fmt`), register them in a Campaign (choose go_opts), add jobs, extend the driver template
+with a new op if the property needs another observation (constructors, builders: add a handler to
+drivers/go/main.go and a case generator to Batch._emit_dispatch), model the op in a new coq/Model/GoSem*.v as a
+function of the post-chain context, add mm_* / pf_* predicates next to coq/Model/GoSemChecks.v.
+Dev aids: tools/try_gen.py, tools/try_model.py, tools/try_check.py (run a check body, list every PROPFAIL by
+signature), tools/try_min.py (hand-written schema + documents -> what the generated code does).
+
+Conventions: JSON documents travel as exact text (srcgen.dumps / srcgen.loads; Decimal numbers, DupObj for
+duplicate member names); Go type keys are "<gopkg>.<GoType>"; every random choice is made by the caller's
+random.Random (ctx.rng).
 """
 import json
 import os
@@ -403,6 +439,43 @@ def build_cli(ctx):
 def cli_generate(ctx, cli, config_path, cwd):
     """`cog generate --config <file>` with cwd (relative output.directory resolves against it)."""
     return core.sh([cli, "generate", "--config", config_path], cwd=cwd, env=core.GOENV, timeout=600)
+
+
+def cli_crosscheck(ctx, batch, sids):
+    """run the real `cog generate` CLI (built from core.REPO) on the pipeline files of `sids` and compare the
+    files it writes with what the in-process harness produced for the same pipelines.
+    Returns {"checked": n, "identical": n, "differences": [{sid, file, kind}]}."""
+    cli = build_cli(ctx)
+    out = {"checked": 0, "identical": 0, "differences": []}
+
+    def one(sid):
+        cfg = batch.schemas[sid][3]
+        cwd = os.path.join(batch.root, "cli_" + sid)
+        os.makedirs(cwd, exist_ok=True)
+        rc, log = cli_generate(ctx, cli, cfg, cwd)
+        diffs = []
+        ok = batch.gen[sid].status == "OK"
+        if (rc == 0) != ok:
+            diffs.append({"sid": sid, "file": "", "kind": "cli rc=%d but harness status=%s" % (rc, batch.gen[sid].status)})
+        if rc == 0 and ok:
+            for rel in batch.gen[sid].files:
+                a = os.path.join(cwd, rel)
+                b = os.path.join(batch.module_dir, rel)
+                if not os.path.exists(a):
+                    diffs.append({"sid": sid, "file": rel, "kind": "missing from the CLI output"})
+                elif rel.startswith("cog/") or sid in batch.import_fixups:
+                    continue            # shared runtime file / file repaired by build_driver
+                elif open(a, "rb").read() != open(b, "rb").read():
+                    diffs.append({"sid": sid, "file": rel, "kind": "content differs"})
+        return diffs
+
+    for d in core.parallel(one, list(sids)):
+        out["checked"] += 1
+        if d:
+            out["differences"] += d
+        else:
+            out["identical"] += 1
+    return out
 
 
 # ---------------------------------------------------------------------- Coq evaluation of cases
